@@ -13,6 +13,8 @@ def run(chk):
     wrapper_contracts.control_signals_not_exceptions(chk, "C10")
     state_contracts.create_checkpoint(chk, "C10", want=("C10",))
     state_contracts.merge_all_pages(chk, "C10")            # links of operations that already exist (history, checkpoint responses) are registered too
+    from . import lockset
+    lockset.lock_discipline(chk, "C10", ["_parent_done", "_parent_to_children", "_completed_contexts"])   # precondition of G for the orphan bookkeeping
     for kind in ("step", "child", "wfc"):
         ex = explore(kind)
         handler_preamble(chk, ex, FUNCS[kind])
